@@ -219,6 +219,48 @@ theorem MPEGTS_container_after_unpack (t u : TS) (buf : Bytes) :
 
 end counting
 
+/-! ### the iteration cursor `_index` (`Model.Cursor`) -/
+section cursor
+open Acra.Model.Cursor
+
+/-- a loop started by `__iter__` visits positions `k, k+1, …, n-1` in order and stops with the cursor at `n` -/
+theorem cursor_run_from (n k fuel : Nat) (hk : k ≤ n) (hf : n - k < fuel) :
+    run fuel (some k) n = ((List.range' k (n - k)), some n) := by
+  induction fuel generalizing k with
+  | zero => omega
+  | succ f ih =>
+    by_cases hlt : k < n
+    · have : n - k = (n - (k + 1)) + 1 := by omega
+      simp only [run, next, hlt, if_true]
+      rw [ih (k + 1) (by omega) (by omega), this, List.range'_succ]
+    · have hkn : k = n := by omega
+      subst hkn
+      simp [run, next]
+
+example : run 10 (some 2) 5 = ([2, 3, 4], some 5) := cursor_run_from 5 2 10 (by omega) (by omega)
+
+/-- `for x in obj` = `__iter__` then `next` until `StopIteration`: every position `0 … n-1` once, in order, and the cursor
+    ends where the model's `loop` puts it; a further `next()` raises `StopIteration` and keeps raising it -/
+theorem cursor_for_loop (c : Cursor) (n : Nat) :
+    run (n + 1) (start c) n = (List.range n, loop n) ∧
+    next (loop n) n = (loop n, .error .stopIteration) := by
+  refine ⟨?_, by simp [next, loop]⟩
+  have := cursor_run_from n 0 (n + 1) (by omega) (by omega)
+  simpa [start, loop, List.range_eq_range'] using this
+
+/-- `next()` without any `__iter__` before it: `AttributeError`, whatever the container holds -/
+theorem cursor_next_uninitialised (n : Nat) : next none n = (none, .error .attribute) := rfl
+
+/-- OBSERVATION (C13 observes public attributes and `pack()` bytes, not a bare `next()`): `unpack` does not reset the
+    cursor, so what a direct `next()` returns after `unpack b` is NOT a function of `b` — with 3 decoded elements a
+    never-iterated object raises `AttributeError`, one whose last loop ran over 1 element returns element 1, one whose
+    last loop ran over 5 raises `StopIteration` -/
+theorem cursor_next_depends_on_history :
+    next none 3 = (none, .error .attribute) ∧ next (loop 1) 3 = (some 2, .ok 1) ∧
+    next (loop 5) 3 = (some 5, .error .stopIteration) := ⟨rfl, rfl, rfl⟩
+
+end cursor
+
 /-! ### small methods -/
 
 /-- `setPacketTime` writes the two time fields and nothing else; a later `pack` is not influenced by anything else the
